@@ -4,6 +4,7 @@ import itertools
 import os
 import subprocess
 import sys
+import time
 
 from hypothesis import strategies as st
 
@@ -15,7 +16,8 @@ LEVEL = "exploration"
 RULE = (
     "Hypothesis-generated ARBITRARY state sequences (length 0-40, not only those a simulation can produce) over the "
     "four task/component states and the three worker/facility states, finish margins (0, 1/2, 1, 2 and floats), "
-    "time lists (empty, repeated, beyond the end), init dates and unit lengths (1 s .. 1 day). Oracles: "
+    "time lists (empty, repeated, beyond the end), init dates (naive dates on both sides of the daylight-saving "
+    "switches of the harness's local zone, and aware dates of other zones) and unit lengths (1 s .. 1 day). Oracles: "
     "get_time_list_for_gannt_chart == reference run-length encoding (maximal runs -> (start, len-1+margin)) for "
     "READY/WORKING (tasks, components) and FREE/WORKING/ABSENCE (workers, facilities); create_data_for_gantt_plotly "
     "rows == rows derived from the reference runs (Start=init+start*unit, Finish=init+(start+length)*unit) for "
@@ -32,6 +34,16 @@ LEVEL_TEXT = (
     "up to length 6/8 are enumerated exhaustively, longer ones sampled; not a proof for unbounded length."
 )
 LEVEL_NOTE = "Pure functions of the logs; no simulation involved."
+
+# The dates of the chart rows are plain datetime arithmetic and must not depend on the machine's time zone. The
+# harness therefore runs in a zone WITH daylight-saving switches (POSIX rule string, no tz database needed) and
+# generates naive dates on both sides of the switches as well as aware dates of other zones: anything that goes
+# through local time (timestamp()/fromtimestamp()) then shows.
+os.environ["TZ"] = "EST5EDT,M3.2.0,M11.1.0"
+if hasattr(time, "tzset"):
+    time.tzset()
+BASES = [(2020, 1, 1), (2020, 3, 6), (2020, 10, 30)]  # + up to 11.5 days: the 2020 switches are Mar 8 and Nov 1
+TZ_HOURS = [None, None, 9, -5, 0]
 
 T_STATES = [0, 1, 2, -1]
 R_STATES = [0, 1, -1]
@@ -129,6 +141,8 @@ def _case(draw, max_len):
         "times": times,
         "ptime": draw(st.integers(0, 500)),
         "last_off": draw(st.integers(0, 10 ** 7)),
+        "base": draw(st.integers(0, len(BASES) - 1)),
+        "tz": draw(st.sampled_from(TZ_HOURS)),
     }
 
 
@@ -150,7 +164,10 @@ def check(case):
     res = Result()
     margin = case["margin"]
     unit = datetime.timedelta(seconds=case["unit_s"])
-    init = datetime.datetime(2020, 1, 1) + datetime.timedelta(seconds=case["init_off"])
+    tz = datetime.timezone(datetime.timedelta(hours=case["tz"])) if case.get("tz") is not None else None
+    init = datetime.datetime(*BASES[case.get("base", 0)], tzinfo=tz) + datetime.timedelta(seconds=case["init_off"])
+    res.cls("aware_dates", tz is not None)
+    res.cls("across_dst_switch", tz is None and case.get("base", 0) > 0)
     times = case["times"]
     tseqs, rseqs = case["tseqs"], case["rseqs"]
     res.nontrivial = any(changes(s) >= 3 for s in tseqs + rseqs)
@@ -256,7 +273,7 @@ def check(case):
     # 4. set_last_datetime
     p = S.BaseProject(init_datetime=init, unit_timedelta=unit)
     p.time = case["ptime"]
-    last = datetime.datetime(2021, 6, 1) + datetime.timedelta(seconds=case["last_off"])
+    last = datetime.datetime(2021, 6, 1, tzinfo=tz) + datetime.timedelta(seconds=case["last_off"])
     r = p.set_last_datetime(last, set_init_datetime=False)
     if p.init_datetime != init:
         res.fail("C19.set_last_datetime", "set_init_datetime=False changed init_datetime", sig="noset")
